@@ -97,7 +97,6 @@ Definition FNotWaiting := 4.      (* addTaskInputRequest / setComputing outside 
 Definition FNotComputing := 5.    (* finished-task processing / discoveredDependency / complete outside InProgressComputing *)
 Definition FDemandUnscanned := 6. (* demandRule reached task creation on a rule that is not NeedsToRun *)
 Definition FScanIndex := 7.       (* processRuleScanRequest entered with inputIndex == dependencies.size() *)
-Definition FStaleScan := 8.       (* executeTasks returned true while some rule is still IsScanning (its scan record is freed by build()) *)
 Definition FFuel := 99.           (* model artefact: phase fuel exhausted *)
 
 (* ---------- field updates ---------- *)
@@ -323,15 +322,15 @@ Definition task_value (t : key) (ti : tinfo) : value :=
   let o := Spec.obs rules env t in
   (F t (r_sig rl) (map payload_of (used_slots rl (ti_slots ti))) (map env (r_disc rl)) o, o).
 
-(* DTask::inputsAvailable *)
-Definition inputs_available (s : istate) (t : key) : istate :=
-  let s := iemit s (EAvail t) in
+(* DTask::inputsAvailable (after the event): compute the value; a synchronous task completes at once *)
+Definition avail_body (s : istate) (t : key) : istate :=
   match aget (is_tasks s) t with
   | None => fault s FNoTask
   | Some ti =>
     let s := set_ti s t (ti_with_pending (Some (task_value t ti)) ti) in
     if syncp t then task_finish s t else s
   end.
+Definition inputs_available (s : istate) (t : key) : istate := avail_body (iemit s (EAvail t)) t.
 
 (* ---------- scanRule ---------- *)
 Definition need (s : istate) (k : key) (reason : N) (inp : option key) : istate :=
@@ -565,9 +564,14 @@ Inductive status :=
 Definition has_work (s : istate) : bool :=
   nonnil (is_toscan s) || nonnil (is_inreq s) || nonnil (is_fininreq s) || nonnil (is_ready s) || nonnil (is_fintasks s).
 
-(* [comps]: the tasks whose complete() arrives before this iteration looks at its queues (from other threads while the
-   engine was blocked, or at the top of the iteration) *)
-Definition loop_iteration (fuel : nat) (root : key) (s : istate) (comps : list key) : istate * status :=
+(* the test made when an iteration did no work and nothing is computing: tasks exist, or (no task exists and) some rule is still
+   IsScanning.  [stall_test_v0]: the code before commit e39d106 looked at the requested rule only. *)
+Definition any_scanning (s : istate) : bool := existsb (fun e => kind_eqb (ri_kind (snd e)) KScanning) (is_rules s).
+Definition stall_test (s : istate) : bool := nonnil (is_tasks s) || any_scanning s.
+Definition stall_test_v0 (root : key) (s : istate) : bool := nonnil (is_tasks s) || kind_eqb (kind_of s root) KScanning.
+
+(* [comps]: the tasks whose complete() arrives before this iteration looks at its queues (hook point 0) *)
+Definition loop_iteration_gen (stalled : istate -> bool) (fuel : nat) (s : istate) (comps : list key) : istate * status :=
   let s0 := fold_left task_finish comps s in
   let s1 := drain step_scan (fun s => nonnil (is_toscan s)) fuel s0 in
   let s2 := drain step_inreq (fun s => nonnil (is_inreq s)) fuel s1 in
@@ -578,8 +582,9 @@ Definition loop_iteration (fuel : nat) (root : key) (s : istate) (comps : list k
   let did := nonnil (is_toscan s0) || nonnil (is_inreq s1) || nonnil (is_fininreq s2) || nonnil (is_ready s3) || nonnil (is_fintasks s4) in
   if did then (s5, StWork)
   else if negb (Nat.eqb (is_outstanding s5) 0) then (s5, StWait)
-  else if nonnil (is_tasks s5) || kind_eqb (kind_of s5 root) KScanning then (s5, StStall)
+  else if stalled s5 then (s5, StStall)
   else (s5, StDone).
+Definition loop_iteration := loop_iteration_gen stall_test.
 
 (* ---------- findCycle's successorGraph ((a, b): b waits on a) ---------- *)
 Definition req_task_key (rq : ireq) : list key := match iq_task rq with Some t => [t] | None => [] end.
@@ -625,7 +630,7 @@ Definition fc_linear_fuel (g : list (key * key)) : nat := (2 * length g + 3)%nat
 Definition sched_item := (list key * list key)%type.
 Definition mark := (nat * nat * status)%type.
 
-Fixpoint run_loop (fuel : nat) (pfuel : nat) (root : key) (s : istate) (sched : list sched_item) (marks : list mark)
+Fixpoint run_loop_gen (stalled : istate -> bool) (fuel : nat) (pfuel : nat) (root : key) (s : istate) (sched : list sched_item) (marks : list mark)
   : run_result * list mark :=
   match fuel with
   | O => (ROutOfFuel s, rev marks)
@@ -633,34 +638,31 @@ Fixpoint run_loop (fuel : nat) (pfuel : nat) (root : key) (s : istate) (sched : 
     let top := match sched with [] => [] | c :: _ => fst c end in
     let blk := match sched with [] => [] | c :: _ => snd c end in
     let sched' := match sched with [] => [] | _ :: t => t end in
-    match loop_iteration pfuel root s top with
+    match loop_iteration_gen stalled pfuel s top with
     | (s', st) =>
       let marks := (length (is_log s), length (is_log s'), st) :: marks in
       match st with
-      | StWork => run_loop f pfuel root s' sched' marks
+      | StWork => run_loop_gen stalled f pfuel root s' sched' marks
       | StWait =>
         let s'' := fold_left task_finish blk s' in
         if negb (nonnil (is_fintasks s'')) && negb (nonnil sched') then (RBlocked s'', rev marks)
-        else run_loop f pfuel root s'' sched' marks
+        else run_loop_gen stalled f pfuel root s'' sched' marks
       | StStall =>
         let g := wait_graph s' in
         let c := FindCycle.findcycle_names g root (fc_linear_fuel g) in
         let s'' := match c with FindCycle.FcDone p => iemit s' (ECycleReported p) | FindCycle.FcOutOfFuel => s' end in
         (RCycle (cancel_remaining s'') g c, rev marks)
-      | StDone =>
-        (* the stall test looks at the requested rule only: other rules may still be IsScanning (ImplProofs: only through a
-           discovered dependency); build() then frees their scan records and a later build would use them *)
-        (RDone (if existsb (fun e => kind_eqb (ri_kind (snd e)) KScanning) (is_rules s') then fault s' FStaleScan else s'), rev marks)
+      | StDone => (RDone s', rev marks)
       end
     end
   end.
 
 (* executeTasks: the dummy input request for the key to build, then the loop *)
-Definition run_build (fuel pfuel : nat) (root : key) (s : istate) (sched : list sched_item) : run_result * list mark :=
-  let s := upd_fininreq s [] in
-  let s := touch s root in
-  let s := upd_inreq s (is_inreq s ++ [mkIReq None 0%nat root false false]) in
-  run_loop fuel pfuel root s sched [].
+Definition start_build (s : istate) (root : key) : istate :=
+  push_inreq (touch (upd_fininreq s []) root) (mkIReq None 0%nat root false false).
+Definition run_build_gen (stalled : istate -> bool) (fuel pfuel : nat) (root : key) (s : istate) (sched : list sched_item) : run_result * list mark :=
+  run_loop_gen stalled fuel pfuel root (start_build s root) sched [].
+Definition run_build := run_build_gen stall_test.
 
 (* BuildEngine::build: ++currentEpoch, executeTasks, setCurrentIteration *)
 Definition bump (s : istate) : istate :=
@@ -673,17 +675,34 @@ Definition commit (s : istate) : istate :=
 Definition final_state (r : run_result) : istate :=
   match r with RDone s | RCycle s _ _ | RBlocked s | ROutOfFuel s => s end.
 
-Definition ibuild (fuel pfuel : nat) (s : istate) (root : key) (sched : list sched_item) : run_result * list mark :=
+Definition ibuild_gen (stalled : istate -> bool) (fuel pfuel : nat) (s : istate) (root : key) (sched : list sched_item) : run_result * list mark :=
   let s0 := iemit (bump s) (EBuildStart root) in
-  match run_build fuel pfuel root s0 sched with
+  match run_build_gen stalled fuel pfuel root s0 sched with
   | (RDone s1, m) => (RDone (iemit (commit s1) (EResult (res_value (res_of s1 root)) false)), m)
   | (RCycle s1 g c, m) => (RCycle (iemit (commit s1) (EResult None true)) g c, m)
   | (other, m) => (other, m)
   end.
 
+Definition ibuild := ibuild_gen stall_test.
+Definition ibuild_v0 (fuel pfuel : nat) (s : istate) (root : key) := ibuild_gen (stall_test_v0 root) fuel pfuel s root.
+
 (* dumpGraphToFile looks up (and thereby loads) every dependency of every rule it prints *)
 Definition dump_touch (s : istate) : istate :=
   fold_left (fun s e => fold_left (fun s d => touch s (d_key d)) (res_deps (ri_res (snd e))) s) (is_rules s) s.
+
+(* ---------- vocabulary of the statements (ImplProofs*.v, Props/Properties_impl.v) ---------- *)
+
+(* the steps the loop is made of: a completion arriving from a task, or one item of one of the five queues *)
+Inductive mstep : istate -> istate -> Prop :=
+| ms_finish s t : mstep s (task_finish s t)
+| ms_scan s : mstep s (step_scan s)
+| ms_inreq s : mstep s (step_inreq s)
+| ms_fininreq s : mstep s (step_fininreq s)
+| ms_ready s : mstep s (step_ready s)
+| ms_fintask s : mstep s (step_fintask s).
+Inductive msteps : istate -> istate -> Prop :=
+| mss_refl s : msteps s s
+| mss_step s s' s'' : msteps s s' -> mstep s' s'' -> msteps s s''.
 
 End Impl.
 
@@ -691,3 +710,51 @@ End Impl.
 Definition irestart (usedb : bool) (s : istate) : istate :=
   if usedb then mkIS [] [] [] [] [] [] [] 0 (is_db_epoch s) true (is_db s) (is_db_epoch s) (is_fault s) (ERestart :: is_log s)
   else mkIS [] [] [] [] [] [] [] 0 0 false [] 0 (is_fault s) (ERestart :: is_log s).
+
+(* position of a rule in the order Incomplete < IsScanning < {NeedsToRun, DoesNotNeedToRun} < InProgressWaiting < InProgressComputing
+   < Complete; a Complete mark of an earlier epoch counts as Incomplete (the lazy reset of isComplete/isScanned) *)
+Definition rrank (ep : N) (ri : rinfo) : nat :=
+  match ri_kind ri with
+  | KIncomplete => 0
+  | KScanning => 1
+  | KNeedsToRun | KDoesNotNeedToRun => 2
+  | KWaiting => 3
+  | KComputing => 4
+  | KComplete => if N.eqb (res_builtAt (ri_res ri)) ep then 5 else 0
+  end.
+Definition krank (s : istate) (k : key) : nat := rrank (is_epoch s) (rinfo_of s k).
+
+Fixpoint count_ev (p : event -> bool) (l : list event) : nat :=
+  match l with [] => 0 | e :: t => (if p e then 1 else 0) + count_ev p t end.
+Definition is_create (k : key) (e : event) : bool := match e with ECreate k' => N.eqb k k' | _ => false end.
+Definition is_avail (k : key) (e : event) : bool := match e with EAvail k' => N.eqb k k' | _ => false end.
+Definition is_complete_ev (k : key) (e : event) : bool := match e with EComplete k' _ => N.eqb k k' | _ => false end.
+
+(* ---------- the waitCount identity ---------- *)
+Definition for_task (t : key) (rq : ireq) : bool := match iq_task rq with Some t' => N.eqb t t' | None => false end.
+Definition cnt_i (t : key) (l : list ireq) : nat := length (filter (for_task t) l).
+Fixpoint asum {A} (g : A -> nat) (m : list (N * A)) : nat :=
+  match m with [] => 0 | e :: tl => g (snd e) + asum g tl end.
+(* the requests of task t that are outstanding: not yet looked at (inputRequests), paused on a rule being scanned, waiting for
+   the task of their input (requestedBy), or ready to be delivered (finishedInputRequests) *)
+Definition outstanding_count (s : istate) (t : key) : nat :=
+  cnt_i t (is_inreq s) + asum (fun ri => cnt_i t (ri_paused ri)) (is_rules s)
+  + asum (fun ti => cnt_i t (ti_reqby ti)) (is_tasks s) + cnt_i t (is_fininreq s).
+
+(* the scan requests of rule k: queued (ruleInfosToScan), deferred on a rule being scanned, deferred on a task *)
+Definition for_rule (k : key) (rq : sreq) : bool := N.eqb k (sq_rule rq).
+Definition cnt_s (k : key) (l : list sreq) : nat := length (filter (for_rule k) l).
+Definition scan_count (s : istate) (k : key) : nat :=
+  cnt_s k (is_toscan s) + asum (fun ri => cnt_s k (ri_deferred ri)) (is_rules s)
+  + asum (fun ti => cnt_s k (ti_deferred ti)) (is_tasks s).
+
+(* the keys a task of this rule may ask for *)
+Definition requestable (rl : rule) : list key :=
+  r_req rl ++ r_single rl ++ r_follow rl ++ match r_br rl with Some (_, a, b) => a ++ b | None => [] end.
+
+(* a state between builds: nothing queued, no task, nothing scanning, no failed assert *)
+Definition quiescent (s : istate) : Prop :=
+  is_tasks s = [] /\ is_toscan s = [] /\ is_inreq s = [] /\ is_ready s = [] /\ is_fintasks s = [] /\
+  is_outstanding s = 0%nat /\ is_fault s = None /\ NoDup (map fst (is_rules s)) /\
+  forall k, kind_of s k <> KScanning /\ kind_of s k <> KWaiting /\ kind_of s k <> KComputing /\
+            ri_paused (rinfo_of s k) = [] /\ ri_deferred (rinfo_of s k) = [].
